@@ -18,7 +18,13 @@ import (
 //   c20.gen <locName> <machine zone> <effective zone name> <its transition table> <cell text>
 // ---------------------------------------------------------------------------
 
-func implC20Gen(a []string) string {
+func implC20Gen(a []string) string { return implC20(a, false) }
+
+// c20.emitz: the same run with EmitTimezones — the JSON must show the same instant with the location's offset
+//   → okz <unix seconds> <offset seconds east of UTC>
+func implC20Emitz(a []string) string { return implC20(a, true) }
+
+func implC20(a []string, emitz bool) string {
 	locName, machine, text := a[0], a[1], mustStr(a[4])
 	mz, err := time.LoadLocation(machine)
 	if err != nil {
@@ -31,7 +37,7 @@ func implC20Gen(a []string) string {
 	defer w.cleanup()
 	w.writeCSVBook("", bookSpec{Name: "Book", Sheets: []sheetSpec{{Name: "TimeConf", Rows: [][]string{
 		{"ID", "At"}, {"map<uint32, Item>", "datetime"}, {"id", "at"}, {"1", text}}}}})
-	ro := runOpts{LocationName: locName, LocationRaw: true}
+	ro := runOpts{LocationName: locName, LocationRaw: true, EmitTimezones: emitz}
 	if err := w.genProto(ro); err != nil {
 		return "protoerr"
 	}
@@ -61,6 +67,10 @@ func implC20Gen(a []string) string {
 	if t.Nanosecond() != 0 {
 		return fmt.Sprintf("okn %d %d", t.Unix(), t.Nanosecond())
 	}
+	if emitz {
+		_, off := t.Zone()
+		return fmt.Sprintf("okz %d %d", t.Unix(), off)
+	}
 	return fmt.Sprintf("ok %d", t.Unix())
 }
 
@@ -85,9 +95,20 @@ func init() {
 			} else {
 				t = time.Unix(r.Int63n(2600000000)-590000000, 0)
 			}
+			if r.Intn(3) == 0 {
+				// with EmitTimezones; instants around the Unix epoch included (a zero-valued Timestamp message)
+				if r.Intn(4) == 0 {
+					t = time.Unix([]int64{0, 0, 1, -1, 60}[r.Intn(5)], 0)
+				}
+				if t.Unix() > -600000000 { // minute-resolution offsets only (RFC 3339 cannot print the LMT eras)
+					emit("c20.emitz", name, machine, eff, z.enc, encStr(t.In(z.loc).Format("2006-01-02 15:04:05")))
+					continue
+				}
+			}
 			text := t.In(z.loc).Format([]string{"2006-01-02 15:04:05", "2006-01-02", "20060102"}[r.Intn(3)])
 			emit("c20.gen", name, machine, eff, z.enc, encStr(text))
 		}
 	})
 	regImpl("c20.gen", implC20Gen)
+	regImpl("c20.emitz", implC20Emitz)
 }
